@@ -67,6 +67,8 @@ def obligations(tier):
                      defs=["MODE=3", "NDA=%d" % nda, "ND=1"], unwind=nda + 6, object_bits=10, backend="cadical", timeout=500, mem_gb=8,
                      encodes=["parse_es_id_list", "id_list_create", "id_list_add", "list_calloc", "list_realloc", "list_free_all", "consume_int", "consume_pint", "consume_symbol"],
                      bounds="template {A:2:C}; ids that do not fit in int are outside the claim (the code wraps modulo 2^32 without UB)", symbolic="all digits and signs"))
+    o.append(Obl("affgrammar_alloc_list", "C20/affgrammar.c", "the parser's allocation list (list_calloc / list_realloc / list_free_all), on which every error path relies: list of 1..3 blocks, a solver-chosen one (head/middle/tail) re-allocated, one more allocated: the list reaches every live block exactly once, never a freed block, p_tail is the last block, contents kept, list_free_all releases everything",
+                 defs=["MODE=6"], unwind=6, object_bits=10, backend="cadical", encodes=["list_calloc", "list_realloc", "list_free_all"], bounds="<=3 blocks + 1 re-allocation + 1 allocation", symbolic="list length, which block is re-allocated"))
     return o
 
 MANIFEST_ENTRY = {
